@@ -251,22 +251,39 @@ def sameReal (s : State V) (names followers : List Name) : State V :=
       { s with trainable := sameRealTr first rest s.trainable,
                vars := rebind (rebind s.vars (first :: rest) c) (followers.filter (dhas s.vars)) c }
 
+/-- `exists(name)` of `set_same` (before the fix: `name in self.variables` also for complex names) -/
+def ssInVars (cfg : Cfg) (s : State V) (cplx : Bool) (n : Name) : Bool :=
+  if cfg.fixSame && cplx then dhas s.vars (n ++ "r") else dhas s.vars n
+
+/-- `is_trainable(name)` of `set_same` -/
+def ssIsTr (s : State V) (cplx : Bool) (n : Name) : Bool :=
+  if cplx then (decide (n ++ "r" ∈ s.trainable) || decide (n ++ "i" ∈ s.trainable)) else decide (n ∈ s.trainable)
+
+/-- the representative of an existing group: its free member (after the fix), else its first entry -/
+def ssHeadOf (cfg : Cfg) (s : State V) (cplx : Bool) (g : List Name) (dflt : Name) : Name :=
+  if cfg.fixSame then ((g.find? (ssIsTr s cplx)).getD (g.headD dflt)) else g.headD dflt
+
+/-- `new_name_list = head_list + [i for i in name_list if i not in tmp_list]` -/
+def ssNewNames (names tmp heads : List Name) : List Name :=
+  heads ++ names.filter (fun i => !(tmp.contains i))
+
+/-- `for i in tmp_list: if i not in name_list: name_list.append(i)` -/
+def ssNameList (names tmp : List Name) : List Name :=
+  tmp.foldl (fun nl i => if nl.contains i then nl else nl ++ [i]) names
+
+/-- the call(s) of `same_real` -/
+def ssCore (s1 : State V) (cplx : Bool) (newNames fol : List Name) : State V :=
+  if cplx then
+    sameReal (sameReal s1 (newNames.map (· ++ "r")) (fol.map (· ++ "r"))) (newNames.map (· ++ "i")) (fol.map (· ++ "i"))
+  else sameReal s1 newNames fol
+
 /-- `set_same`; returns the state and the (mutated) `name_list` -/
 def setSame (cfg : Cfg) (s : State V) (names : List Name) (cplx : Bool) : State V × List Name :=
-  let inVars : Name → Bool := fun n =>
-    if cfg.fixSame && cplx then dhas s.vars (n ++ "r") else dhas s.vars n
-  let isTr : Name → Bool := fun n =>
-    if cplx then (decide (n ++ "r" ∈ s.trainable) || decide (n ++ "i" ∈ s.trainable)) else decide (n ∈ s.trainable)
-  let headOf : List Name → Name → Name := fun g dflt =>
-    if cfg.fixSame then ((g.find? isTr).getD (g.headD dflt)) else g.headD dflt
-  let (same', tmp, heads) := mergeLoop inVars headOf names (s.same, [], [])
-  let newNames := heads ++ names.filter (fun i => !(tmp.contains i))
-  let nameList := tmp.foldl (fun nl i => if nl.contains i then nl else nl ++ [i]) names
+  let r := mergeLoop (ssInVars cfg s cplx) (ssHeadOf cfg s cplx) names (s.same, [], [])
+  let newNames := ssNewNames names r.2.1 r.2.2
+  let nameList := ssNameList names r.2.1
   let fol := if cfg.fixSame then nameList else []
-  let s1 : State V := { s with same := same' }
-  let s2 := if cplx then
-      sameReal (sameReal s1 (newNames.map (· ++ "r")) (fol.map (· ++ "r"))) (newNames.map (· ++ "i")) (fol.map (· ++ "i"))
-    else sameReal s1 newNames fol
+  let s2 := ssCore { s with same := r.1 } cplx newNames fol
   let nameList' := if cfg.fixSame then newNames ++ nameList.filter (fun i => !(newNames.contains i)) else nameList
   ({ s2 with same := s2.same ++ [nameList'] }, nameList')
 
@@ -456,5 +473,26 @@ def wellPhasedFrom : Nat → List (Op V) → Bool
 
 /-- create; fix/free; tie; bound; then arbitrary interleavings -/
 def WellPhased (ops : List (Op V)) : Prop := wellPhasedFrom 0 ops = true
+
+/-! ### tie calls name existing parameters of the right kind -/
+
+/-- no name is at the same time a real variable and the base `c` of a complex one (`c`, `c+"r"` both bound) -/
+def ncOK (s : State V) : Bool := (dkeys s.vars).all fun n => !dhas s.vars (n ++ "r")
+
+/-- `c` names a complex parameter: `c+"r"` and `c+"i"` are bound -/
+def isCplxBase (s : State V) (n : Name) : Bool := dhas s.vars (n ++ "r") && dhas s.vars (n ++ "i")
+
+/-- precondition of a tie call: real ties list bound names, complex ties / shared radii list complex parameters -/
+def tieOK (s : State V) : Op V → Bool
+  | .setSame names cplx => ncOK s && names.all (fun n => if cplx then isCplxBase s n else dhas s.vars n)
+  | .setShareR names => ncOK s && names.all (isCplxBase s)
+  | _ => true
+
+def wellNamedFrom (A : Arith V) (cfg : Cfg) : State V → List (Op V) → Bool
+  | _, [] => true
+  | s, op :: ops => tieOK s op && wellNamedFrom A cfg (step A cfg s op).1 ops
+
+/-- every tie call of the history satisfies `tieOK` in the state in which it is made -/
+def WellNamed (A : Arith V) (cfg : Cfg) (s : State V) (ops : List (Op V)) : Prop := wellNamedFrom A cfg s ops = true
 
 end TfPwaV.Vars
